@@ -26,6 +26,9 @@ pub struct ScrollCase {
     /// use the full framebuffer as display size (otherwise a 16x16 window)
     #[serde(default)]
     pub full_size: bool,
+    /// bit 0 BGR, bit 1 inverted, bit 2 bottom-to-top refresh, bit 3 right-to-left refresh, bit 4 reset pin
+    #[serde(default)]
+    pub opts: u8,
 }
 
 /// the scroll-area oracle, in u32
@@ -53,6 +56,11 @@ pub fn check(c: &ScrollCase, info: &mut CaseInfo) -> Result<(), String> {
     };
     let mut cfg = Config::full(c.model, transport);
     cfg.orient = c.orient;
+    cfg.bgr = c.opts & 1 != 0;
+    cfg.invert = c.opts & 2 != 0;
+    cfg.refresh_v = c.opts & 4 != 0;
+    cfg.refresh_h = c.opts & 8 != 0;
+    cfg.reset_pin = c.opts & 16 != 0;
     let (fw, fh) = c.model.fb();
     // the display size is irrelevant for scrolling (the region is relative to the framebuffer)
     if !(c.full_size && (fw as u32 * fh as u32) < (1 << 22)) {
@@ -148,9 +156,9 @@ pub fn strategy() -> BoxedStrategy<ScrollCase> {
     proptest::sample::select(MODELS.to_vec())
         .prop_flat_map(|model| {
             let rows = model.fb().1;
-            (Just(model), crate::gen::orient(), biased(rows), biased(rows), any::<u16>(), 0u8..6, -2i64..=2, proptest::option::weighted(0.25, 2u8..=9), any::<bool>())
+            (Just(model), crate::gen::orient(), biased(rows), biased(rows), any::<u16>(), 0u8..6, -2i64..=2, proptest::option::weighted(0.25, 2u8..=9), any::<bool>(), 0u8..32)
         })
-        .prop_map(|(model, orient, top, b0, offset, mode, d, spi_buf, full_size)| {
+        .prop_map(|(model, orient, top, b0, offset, mode, d, spi_buf, full_size, opts)| {
             let rows = model.fb().1 as i64;
             // make top+bottom land on rows+d or on 65536+d in a third of the cases
             let bottom = match mode {
@@ -158,7 +166,7 @@ pub fn strategy() -> BoxedStrategy<ScrollCase> {
                 2 => (65536 - top as i64 + d).clamp(0, 65535) as u16,
                 _ => b0,
             };
-            ScrollCase { model, orient, top, bottom, offset, spi_buf, full_size }
+            ScrollCase { model, orient, top, bottom, offset, spi_buf, full_size, opts }
         })
         .boxed()
 }
@@ -180,7 +188,7 @@ fn grid() -> Vec<ScrollCase> {
         vals.dedup();
         for &t in &vals {
             for &b in &vals {
-                out.push(ScrollCase { model, orient: Orient::ALL[(t as usize + b as usize) % 8], top: t, bottom: b, offset: t ^ b.rotate_left(3), spi_buf: if (t ^ b) % 5 == 0 { Some(2 + (t % 6) as u8) } else { None }, full_size: (t as u32 + b as u32) % 3 == 0 });
+                out.push(ScrollCase { model, orient: Orient::ALL[(t as usize + b as usize) % 8], top: t, bottom: b, offset: t ^ b.rotate_left(3), spi_buf: if (t ^ b) % 5 == 0 { Some(2 + (t % 6) as u8) } else { None }, full_size: (t as u32 + b as u32) % 3 == 0, opts: ((t as u32 * 7 + b as u32 * 13) % 32) as u8 });
             }
         }
     }
@@ -300,7 +308,7 @@ pub fn run(ctx: &Ctx) -> Report {
     run_enumerated(&mut sec, grid(), ctx.workers, check, sig);
     rep.sections.push(sec);
 
-    let mut sec = Section::new(&format!("generated[{}]", ctx.variant), "model x orientation x (top,bottom,offset) in u16^3, boundary biased, a third with top+bottom forced to rows+-2 or 65536+-2");
+    let mut sec = Section::new(&format!("generated[{}]", ctx.variant), "model x orientation x colour/inversion/refresh options x reset pin x (top,bottom,offset) in u16^3, boundary biased, a third with top+bottom forced to rows+-2 or 65536+-2");
     run_generated(&mut sec, ctx.seed, ctx.cases(500_000, 10_000_000), ctx.workers, strategy, check, sig);
     rep.sections.push(sec);
 
@@ -324,7 +332,7 @@ pub fn run(ctx: &Ctx) -> Report {
                     if !ok && sec.violations.is_empty() {
                         sec.violations.push(Violation {
                             reason: format!("set_vertical_scroll_offset({}) sent {:?} / returned {:?}", off, tr, r),
-                            case: serde_json::to_value(ScrollCase { model: ModelId::ST7789, orient: Orient::ALL[0], top: 0, bottom: 0, offset: off, spi_buf: None, full_size: false }).unwrap(),
+                            case: serde_json::to_value(ScrollCase { model: ModelId::ST7789, orient: Orient::ALL[0], top: 0, bottom: 0, offset: off, spi_buf: None, full_size: false, opts: 0 }).unwrap(),
                             signature: "c16:offset".into(),
                         });
                     }
@@ -385,7 +393,7 @@ pub fn run(ctx: &Ctx) -> Report {
             if sec.violations.len() < 3 {
                 sec.violations.push(Violation {
                     reason: why,
-                    case: serde_json::to_value(ScrollCase { model: m, orient: Orient::ALL[0], top: t, bottom: b, offset: 0, spi_buf: None, full_size: false }).unwrap(),
+                    case: serde_json::to_value(ScrollCase { model: m, orient: Orient::ALL[0], top: t, bottom: b, offset: 0, spi_buf: None, full_size: false, opts: 0 }).unwrap(),
                     signature: "c16:sweep".into(),
                 });
             }
